@@ -111,7 +111,7 @@ func Gen(seed uint64, tier string) any {
 	if sc.Kind == "session" {
 		sc.Strategy = r.IntN(kernel.NumStrats)
 		sc.SegMode = r.IntN(3)
-		sc.ServerKey = core.Pick(r, "right", "right", "right", "wrong", "none")
+		sc.ServerKey = core.Pick(r, "right", "right", "right", "right", "wrong", "none", "empty")
 		sc.Transport = core.Pick(r, "tcp", "tcp", "udp")
 		sc.Clients = 1
 		if sc.Transport == "udp" {
@@ -1053,6 +1053,9 @@ func runSession(sc *Scenario, res *core.Result, verbose bool) {
 		s.srv.TsigSecret = map[string]string{keyName: secretGood}
 	case "wrong":
 		s.srv.TsigSecret = map[string]string{keyName: secretBad}
+	case "empty":
+		// TSIG is switched on, no key is held (the last one was revoked, say): nothing can verify
+		s.srv.TsigSecret = map[string]string{}
 	}
 	start0 := time.Now()
 	k.Go("serve", sessServe{s})
@@ -1127,7 +1130,7 @@ func (s *sess) judge() {
 			if seen == nil || !has {
 				continue
 			}
-			if len(srvSecrets) == 0 {
+			if sc.ServerKey == "none" {
 				// no provider configured: the server does not look at TSIG at all
 				if seen.status != "" {
 					res.Fail("V1", "status-without-provider", "TsigStatus is %q on a server without secrets", seen.status)
@@ -1423,6 +1426,9 @@ func runUDPSession(sc *Scenario, res *core.Result, verbose bool) {
 		srvSecrets[keyName] = secretBad
 	}
 	s.srv = &dns.Server{PacketConn: s.pc, Handler: s, ReadTimeout: time.Hour, UDPSize: 512}
+	if sc.ServerKey == "empty" {
+		s.srv.TsigSecret = map[string]string{}
+	}
 	if len(srvSecrets) > 0 {
 		s.srv.TsigProvider = &yieldProvider{k: k, secrets: srvSecrets, slowUs: []int{0, 500, 5000, 5000}[sc.RunSeed%4]}
 	}
@@ -1472,7 +1478,7 @@ func runUDPSession(sc *Scenario, res *core.Result, verbose bool) {
 				break
 			}
 		}
-		if seen == nil || len(srvSecrets) == 0 {
+		if seen == nil || (len(srvSecrets) == 0 && sc.ServerKey != "empty") {
 			continue
 		}
 		v := oracle.VerifyTSIG(f, srvSecrets, nil, false, uint64(seen.t.Unix()))
